@@ -217,7 +217,20 @@ def _digest_result(r):
         return "%s:!%s" % (type(r).__name__, type(e).__name__)
 
 
+def _clean(r):
+    """memory addresses of default reprs (objects without __str__/__repr__) are not renderings"""
+    if isinstance(r, str):
+        return _ADDR.sub("", r)
+    if isinstance(r, list):
+        return [_clean(x) for x in r]
+    return r
+
+
 def observe(target, objs, twin_of, step):
+    return _clean(_observe(target, objs, twin_of, step))
+
+
+def _observe(target, objs, twin_of, step):
     """one observer call -> JSON-able result digest (exceptions are results: '!Name')"""
     kind = step[0]
     try:
